@@ -52,4 +52,22 @@ PROPS = {
                 "a stop check liveness: every announced tip processed, every accepted task finished, all wallets ready. "
                 "Non-trivial = the handler loop was released at least once; distinct = distinct (schedule trace hash, plan length).",
     },
+    "C06": {
+        "level": "fault_enumeration",
+        "quick_runs": 160, "thorough_runs": 2500, "chunk": 2,
+        "enum": "crashk:commits:400,crashw:writes:80",
+        "params": {"ops": 18},
+        "thorough_params": {"ops": 40, "crashk2max": 12},
+        "nontrivial_stat": "probe.crash_recovered",
+        "rule": "one sampled history = 1-3 wallets, generated mining/forks/new addresses/wallet removals/re-imports/"
+                "wallet creations with the schedule tape interleaving the handler, the worker and API calls. The "
+                "fault-free twin counts its n wallet-db commits after set-up; then for EVERY k in 1..n the same tapes are "
+                "re-run with the process killed right after commit k (all goroutines and volatile state abandoned, "
+                "crash image of the simulated disk reopened, NewWalletManager+Start with catch-up, background tasks "
+                "resumed), the remaining history continues, and at quiescence the wallet set must be what was "
+                "acknowledged (in-flight operations all-or-nothing) and every wallet must equal the ledger model of "
+                "the best chain, i.e. the state of a run that never stopped. thorough adds a second crash in the "
+                "restarted incarnation. Non-trivial = a run in which the crash fired and recovery ran; distinct = "
+                "distinct (schedule trace hash, plan length).",
+    },
 }
